@@ -113,7 +113,14 @@ func (m *vxPhys) step() bool {
 	return m.failAt >= 0 && m.calls-1 == m.failAt
 }
 
+// one scheduling point for two-thread harnesses: right before a physical write takes effect
+var vxBeforePhysPut func()
+
 func (m *vxPhys) Put(ctx context.Context, e *physical.Entry) error {
+	if f := vxBeforePhysPut; f != nil {
+		vxBeforePhysPut = nil
+		f()
+	}
 	if m.step() {
 		return vxErr("injected storage failure")
 	}
@@ -203,4 +210,3 @@ func vxReadable(b *AESGCMBarrier, val []byte) bool {
 	e, err := b.Get(context.Background(), "secret/a")
 	return err == nil && e != nil && vxBytesEq(e.Value, val)
 }
-
